@@ -807,3 +807,91 @@ M("j2-flag-not-first", "C13", "fire J2", "src/compile.rs",
 M("j4-skip-off", "C13", "fire J4", "src/compile.rs",
   """    for slice in bitonic.windows(2).skip(num_empty_elems) {""",
   """    for slice in bitonic.windows(2).skip(num_empty_elems.saturating_sub(1)) {""", "a padding row is paired with the first real row")
+
+# ---------------------------------------------------------------- behaviour-preserving refactors (must stay quiet)
+M("q-push-panic-if-loop-order", "C02", "quiet", "src/circuit.rs",
+  """        for i in 0..current.panic_type.len() {
+            self.panic_gates.result.panic_type[i] = self.push_mux(
+                already_panicked,
+                self.panic_gates.result.panic_type[i],
+                current.panic_type[i],
+            );
+        }
+        self.panic_gates
+            .cache""",
+  """        for (i, new_bit) in current.panic_type.iter().enumerate() {
+            let old_bit = self.panic_gates.result.panic_type[i];
+            let muxed = self.push_mux(already_panicked, old_bit, *new_bit);
+            self.panic_gates.result.panic_type[i] = muxed;
+        }
+        self.panic_gates
+            .cache""", "behaviour-preserving: loop rewritten with iter().enumerate() and temporaries")
+M("q-if-clone-later", "C14", "quiet", "src/compile.rs",
+  """                let mut env_if_true = env.clone();
+                let mut env_if_false = env.clone();
+
+                let case_true = case_true.compile(prg, &mut env_if_true, circuit);
+                let panic_if_true = circuit.replace_panic_with(panic_before_branches.clone());
+""",
+  """                let mut env_if_true = env.clone();
+
+                let case_true = case_true.compile(prg, &mut env_if_true, circuit);
+                let panic_if_true = circuit.replace_panic_with(panic_before_branches.clone());
+                let mut env_if_false = env.clone();
+""", "behaviour-preserving: the else copy is taken after the then branch was lowered (env itself is untouched)")
+M("q-if-clone-later-c02", "C02", "quiet", "src/compile.rs",
+  """                let mut env_if_true = env.clone();
+                let mut env_if_false = env.clone();
+
+                let case_true = case_true.compile(prg, &mut env_if_true, circuit);
+                let panic_if_true = circuit.replace_panic_with(panic_before_branches.clone());
+""",
+  """                let mut env_if_true = env.clone();
+
+                let case_true = case_true.compile(prg, &mut env_if_true, circuit);
+                let panic_if_true = circuit.replace_panic_with(panic_before_branches.clone());
+                let mut env_if_false = env.clone();
+""", "same refactor seen by the panic-record rules")
+M("q-cast-checks-swapped", "C17", "quiet", "src/check.rs",
+  """                expect_bool_or_num_type(&expr.ty, meta)?;
+                expect_bool_or_num_type(&ty, meta)?;""",
+  """                expect_bool_or_num_type(&ty, meta)?;
+                expect_bool_or_num_type(&expr.ty, meta)?;""", "behaviour-preserving for acceptance")
+M("q-scan-arm-order", "C07", "quiet", "src/scan.rs",
+  """                ' ' | '\\r' | '\\t' => {
+                    self.current_token_start = (self.line, self.column);
+                }
+                '\\n' => {
+                    self.line += 1;
+                    self.column = 0;
+                }""",
+  """                '\\n' => {
+                    self.line += 1;
+                    self.column = 0;
+                }
+                ' ' | '\\r' | '\\t' => {
+                    self.current_token_start = (self.line, self.column);
+                }""", "behaviour-preserving: disjoint match arms reordered")
+M("q-is-of-type-arm-order", "C09", "quiet", "src/literal.rs",
+  """            (Literal::True, Type::Bool) => true,
+            (Literal::False, Type::Bool) => true,""",
+  """            (Literal::False, Type::Bool) => true,
+            (Literal::True, Type::Bool) => true,""", "behaviour-preserving: disjoint arms reordered")
+M("q-consts-rename", "C12", "quiet", "src/compile.rs",
+  """        let mut errs = vec![];
+        for (party, deps) in self.const_deps.iter() {
+            for (c, (ty, meta)) in deps {""",
+  """        let mut errs: Vec<CompilerError> = Vec::new();
+        for (party, deps) in self.const_deps.iter() {
+            for (c, (ty, meta)) in deps.iter() {""", "behaviour-preserving: explicit type, Vec::new, .iter()")
+M("q-validate-match", "C16", "quiet", "src/circuit.rs",
+  """                Wire::Not(x) => {
+                    if x >= i {
+                        return Err(CircuitError::InvalidGate(i));
+                    }
+                }""",
+  """                Wire::Not(x) => {
+                    if i <= x {
+                        return Err(CircuitError::InvalidGate(i));
+                    }
+                }""", "behaviour-preserving: comparison written the other way round")
